@@ -70,6 +70,8 @@ pub struct StoreInner {
     pub who_ops: BTreeMap<u32, u64>,
     /// one-shot: the next rename issued by this actor gets this fault
     pub next_rename_fault: BTreeMap<u32, StoreFault>,
+    /// one-shot: after skipping this many deletes issued by this actor, the next one fails
+    pub next_delete_fault: BTreeMap<u32, u64>,
     pub fired: Vec<(u64, StoreFault)>,
     pub events: Vec<StoreEvent>,
     pub images: Vec<CrashImage>,
@@ -188,6 +190,7 @@ impl ObjectStore for SimStore {
             if self.inner.lock().unwrap().yield_each_op { YieldOnce(false).await; }
             let mut d = self.inner.lock().unwrap();
             let (op, fault) = SimStore::begin(&mut d, self.who);
+            let fault = fault.or_else(|| match d.next_delete_fault.get(&self.who).copied() { Some(0) => { d.next_delete_fault.remove(&self.who); Some(StoreFault::DeleteError) } Some(n) => { d.next_delete_fault.insert(self.who, n - 1); None } None => None });
             SimStore::image(&mut d, op, "before");
             let mut applied = None;
             let res = match fault {
